@@ -35,6 +35,7 @@ import CtyModel.Lemmas.d20Pure
 import CtyModel.Lemmas.d20Marks
 import CtyModel.Lemmas.d20Fuel
 import CtyModel.Lemmas.d20bStep
+import CtyModel.Lemmas.d20bOwn
 namespace CtyModel
 namespace C20
 open Heap
@@ -934,6 +935,27 @@ caller may write it at will. -/
 theorem read_entry_points_return_fresh {st st' : St} {c : XApi} (h : stepXApi st c = some st') :
     ∀ g ∈ st'.gos.drop st.gos.length, ∀ a, goRoot g = some a → st.mem.length ≤ a :=
   stepXApi_fresh h
+
+/-- **`UnmarkDeepWithPaths` returns COPIES**: every Go-data register the call creates is a
+path or a mark set whose object was allocated by the call AND belongs to the caller in the
+heap the call leaves — so `pvm[i].Marks[k] = …` and `pvm[i].Path[j] = …` on them are
+respectful caller actions (no side condition of `fingerprints_stable_ext_partial` is
+touched), whatever the value was and wherever its marks sat. -/
+theorem unmarkDeepWithPaths_returns_copies {st st' : St} {v : Nat}
+    (h : stepXApi st (.unmarkDeepWithPaths v) = some st') :
+    (∀ g ∈ st'.gos.drop st.gos.length, ∃ a, goRoot g = some a ∧ st.mem.length ≤ a ∧
+      ownerOf st'.mem a = some .caller) ∧
+    ∀ i w, st.gos.length ≤ i → st'.gos[i]? = some w → ∀ mk j name,
+      respectful st' (.caller (.marksAdd i mk)) = true ∧ respectful st' (.caller (.setStep i j name)) = true := by
+  have hown := unmarkDeepWithPaths_owned h
+  refine ⟨fun g hg => ?_, fun i w hi hw mk j name => ?_⟩
+  · obtain ⟨a, ha, ho⟩ := hown g hg
+    exact ⟨a, ha, stepXApi_fresh h g hg a ha, ho⟩
+  · have hmem : w ∈ st'.gos.drop st.gos.length := by
+      rw [List.mem_iff_getElem?]
+      exact ⟨i - st.gos.length, by rw [List.getElem?_drop]; rw [Nat.add_sub_cancel' hi]; exact hw⟩
+    obtain ⟨a, ha, ho⟩ := hown w hmem
+    cases w <;> simp [goRoot] at ha <;> simp [respectful, callerTarget, St.go, hw] <;> (subst ha; exact ho)
 
 /-- `v := TupleVal{"x".Mark("m"), 1}.Mark("top")` -/
 def unmarkPre : List HeapOp :=
